@@ -157,6 +157,15 @@ def assemble(scratch=None):
         if not os.path.exists(target):
             raise Undecided("anchor-lost src/%s" % hf)
         body = open(os.path.join(kdir, hf)).read()
+        # optional sections `//@if-fn NAME ... //@endif` are kept only if the real file defines fn NAME
+        real = open(target).read()
+
+        def _opt(m):
+            if re.search(FN_ANCHOR % re.escape(m.group(1)), real, re.M):
+                return m.group(2)
+            info.setdefault("dropped_sections", []).append("%s: fn %s not found" % (hf, m.group(1)))
+            return ""
+        body = re.sub(r"//@if-fn (\w+)\n(.*?)//@endif\n", _opt, body, flags=re.S)
         with open(target, "a") as f:
             f.write("\n#[cfg(kani)]\n#[allow(unused_imports, dead_code, unused_variables, unused_mut)]\nmod verif_kani {\n    use super::*;\n")
             f.write(body)
